@@ -413,6 +413,64 @@ func checkC01(c *core.Ctx) {
 		p := &ref.Program{Leaves: ml, Tracked: []bool{true, true, true}}
 		mixRec(p, [][]int{{3}, {1, 3}, {1, 1, 3}}, "", 0)
 	}
+	// (1d) several graphs over ONE shared leaf whose roots have the same rank and
+	// element count but different shapes (and different ranks), back-propagated in every order
+	{
+		mkRoot := func(kind int) []ref.Node { // leaf id 0 of shape [2,3]; negative ids are relative to the node itself
+			switch kind {
+			case 0: // [2,3]
+				return []ref.Node{{Op: ref.Op{K: "Scale", F: 2}, In: []int{0}}, {Op: ref.Op{K: "Sin"}, In: []int{0}}, {Op: ref.Op{K: "Add"}, In: []int{-1, -2}}}
+			case 1: // [3,2]
+				return []ref.Node{{Op: ref.Op{K: "Transpose"}, In: []int{0}}, {Op: ref.Op{K: "Exp"}, In: []int{-1}}}
+			case 2: // [6,1]
+				return []ref.Node{{Op: ref.Op{K: "Reshape", Shape: []int{6, 1}}, In: []int{0}}, {Op: ref.Op{K: "Scale", F: -3}, In: []int{-1}}}
+			case 3: // [1,6]
+				return []ref.Node{{Op: ref.Op{K: "Reshape", Shape: []int{1, 6}}, In: []int{0}}, {Op: ref.Op{K: "Mul"}, In: []int{-1, -1}}}
+			case 4: // [6]
+				return []ref.Node{{Op: ref.Op{K: "Flatten", Dim: 0}, In: []int{0}}}
+			}
+			// [3] (different element count)
+			return []ref.Node{{Op: ref.Op{K: "SumAlong", Dim: 0}, In: []int{0}}, {Op: ref.Op{K: "Scale", F: 0.5}, In: []int{-1}}}
+		}
+		const nKinds = 6
+		for a := 0; a < nKinds; a++ {
+			for b := 0; b < nKinds; b++ {
+				for cc := -1; cc < nKinds; cc++ {
+					if cc >= 0 && !c.Thorough() && cc != (a+b)%nKinds {
+						continue
+					}
+					a, b, cc := a, b, cc
+					c.Case(fmt.Sprintf("seqshapes/%d,%d,%d", a, b, cc), true, func() core.Verdict {
+						p := &ref.Program{Leaves: []*ref.T{enum.Generic([]int{2, 3}, 321, 0.4, 1.3, true)}, Tracked: []bool{true}}
+						var roots []int
+						for _, k := range []int{a, b, cc} {
+							if k < 0 {
+								continue
+							}
+							for _, n := range mkRoot(k) {
+								self := p.NTensors()
+								in := make([]int, len(n.In))
+								for j, id := range n.In {
+									if id < 0 {
+										in[j] = self + id
+									} else {
+										in[j] = id
+									}
+								}
+								p.Nodes = append(p.Nodes, ref.Node{Op: n.Op, In: in})
+							}
+							roots = append(roots, p.NTensors()-1)
+						}
+						v := seqGradCase(p, roots, gradOpts{})
+						if !v.OK && !v.Skip {
+							v.Detail = describeProgram(p) + " :: " + v.Detail
+						}
+						return v
+					})
+				}
+			}
+		}
+	}
 	// (2) leaves as roots
 	for mi, mask := range c01Masks {
 		for r := 0; r < 2; r++ {
